@@ -30,10 +30,43 @@ var sessCorpus = []struct {
 	{"i:0,m:0", "c0,o0,c1,o1,s0,s1,pi0r,pm0e,g"},        // two requests with one id: the later registration owns the slot
 	{"i:0,i:0", "c0,o0,s0,c1,o1,s1,x1,pi0r"},            // same id twice: the second call's return removes the slot
 	{"m:3", "c0,o0,s0,pm3e,g,x0,h,k0"},
+	// requests that spell out the stream's namespace: a response of another kind with the same id
+	// must go to the handler, the real one to the caller (every kind, both APIs)
+	{"i:0:c:r", "c0,o0,s0,pm0e,pp0e,pi0e,g,h,k0"},
+	{"i:0:c:e", "c0,o0,s0,pm0e,pp0e,pm0r,pi0r,g,h,k0"},
+	{"m:0:c:r", "c0,o0,s0,pi0e,pi0r,pp0e,pm0e,g,h,k0"},
+	{"m:0:c:e", "c0,o0,s0,pi0r,pp0e,pm0e,g,h,k0"},
+	{"p:0:c:r", "c0,o0,s0,pi0e,pm0e,pp0e,g,h,k0"},
+	{"p:0:c:e", "c0,o0,s0,pi0r,pm0e,pp0e,g,h,k0"},
+	{"i:0:e:e,m:1:e:e,p:2:e:e", "c0,o0,c1,o1,c2,o2,s0,s1,s2,pm0e,pp1e,pi2r,pi0r,g,h,k0,pm1e,g,h,k1,pp2e,g,h,k2"},
+	// the other stanza namespace: matched only by a stanza that carries it too
+	{"i:0:s:r", "c0,o0,s0,pi0r,pi0rS,g,h,k0"},
+	{"i:0:c:r", "c0,o0,s0,pi0rS,pi0r,g,h,k0"},
+	{"i:0:e:r", "c0,o0,s0,pm0eS,pi0rS,g,h,k0"},
+	// only result/error stanzas consult the table: a get/set (or chat, available) with the id of a
+	// pending request goes to the handler and the caller keeps waiting
+	{"i:0:e:r", "c0,o0,s0,pi0g,pi0t,pm0n,pp0n,pi0r,g,h,k0"},
+	{"i:0:c:e,i:1:e:r", "c0,o0,c1,o1,s0,s1,pi1g,pi0t,pi1r,g,h,k1,pi0e,g,h,k0"},
 	{"p:3", "c0,o0,s0,pp3e,g,h,x0,k0,pp3e"},
 }
 
-var peerAlphabet = []string{"pi0r", "pi0e", "pi1r", "pm0e", "pm1e", "pp0e", "pi9r", "pm0n", "pp1n"}
+// every stanza kind x type (result, error; normal, get, set) x id (two requester ids and an
+// unknown one) x namespace (the stream's, jabber:server spelled out)
+var peerAlphabet = func() []string {
+	var out []string
+	for _, k := range "imp" {
+		types := "ren"
+		if k == 'i' {
+			types = "regt"
+		}
+		for _, t := range types {
+			for _, id := range []int{0, 1, 9} {
+				out = append(out, fmt.Sprintf("p%c%d%c", k, id, t), fmt.Sprintf("p%c%d%cS", k, id, t))
+			}
+		}
+	}
+	return out
+}()
 
 func parseReqs(s string) []reqSpec {
 	var out []reqSpec
@@ -43,7 +76,14 @@ func parseReqs(s string) []reqSpec {
 	for _, f := range strings.Split(s, ",") {
 		p := strings.Split(f, ":")
 		id, _ := strconv.Atoi(p[1])
-		out = append(out, reqSpec{kind: p[0][0], id: id})
+		q := reqSpec{kind: p[0][0], id: id, ns: 'e', api: 'r'}
+		if len(p) > 2 && p[2] != "" {
+			q.ns = p[2][0]
+		}
+		if len(p) > 3 && p[3] != "" {
+			q.api = p[3][0]
+		}
+		out = append(out, q)
 	}
 	return out
 }
@@ -84,7 +124,7 @@ func randReqs(rnd *common.Rand) []reqSpec {
 		if rnd.Chance(1, 4) {
 			id = rnd.Intn(2)
 		}
-		out = append(out, reqSpec{kind: "iiimp"[rnd.Intn(5)], id: id})
+		out = append(out, reqSpec{kind: "iiimp"[rnd.Intn(5)], id: id, ns: "eeccs"[rnd.Intn(5)], api: "re"[rnd.Intn(2)]})
 	}
 	return out
 }
